@@ -65,6 +65,22 @@ def residuals(full):
 
 
 def run_case(c):
+    r = _run_one(c)
+    if c.get("seed", 0) % 2 == 0 and not r.get("skip") and not r.get("error"):
+        # a second supercell of the same crystal in the same process: the same matrix with its axes permuted (same number of atoms and lattice
+        # points, same pattern of the atom maps, ANOTHER translation table) - whatever the first one left behind in the process must not leak in.
+        # (Inside one case on purpose: which cases share a worker process depends on the sharding, e.g. on the thread-count dimension.)
+        Pm = np.array([[0, 1, 0], [0, 0, 1], [1, 0, 0]])
+        c2 = dict(c, smat=(Pm @ np.array(c["smat"]) @ Pm.T).tolist(), seed=c["seed"] + 1)
+        r2 = _run_one(c2)
+        r.setdefault("obs", {})["twin_permuted_axes"] = 1
+        for v in (r2.get("viol") or []):
+            r.setdefault("viol", []).append(dict(v, twin="axes", msg="(second supercell in the same process: axes permuted) %s" % v.get("msg")))
+        r["viol"] = (r.get("viol") or [])[:8]
+    return r
+
+
+def _run_one(c):
     from phonopy.harmonic.force_constants import (compact_fc_to_full_fc, full_fc_to_compact_fc, set_tensor_symmetry_PJ, show_drift_force_constants,
                                                   symmetrize_compact_force_constants, symmetrize_force_constants)
     from vlib.gen import models, setup
